@@ -146,27 +146,58 @@ def id_pcmp(ctx):
 
 # ---------------------------------------------------------------- MerkleReg
 
-def _seen_atom(facts, found):
-    """atom: `every child hash of the node is in self.<F>` (through a helper or inline)."""
-    def atom(t):
-        if t[0] != 'call':
-            return None
-        e = drop_lv(expand_all(facts, t, stop=()))
-        if is_call(e, 'all') and len(e[2]) == 2:
-            src = e[2][0]
-            base = versionless(iter_source(src)[0])
-            if not (base[0] == 'field' and base[2] == 'children') or set(iter_adaptors(src)) & LOSSY_ADAPTORS:
-                return None
-            pb = param_path(base) or ('elem', ())
-            for clo, m in closure_bindings(e):
-                cb = facts.cb(clo[1])
-                cr = drop_lv(subst(interp(facts, cb).ret, m))
-                if is_call(cr, ('contains_key', 'contains')) and len(cr[2]) == 2 and versionless(cr[2][1])[0] == 'item':
-                    pc = param_path(cr[2][0])
-                    if pc and pc[0] == 1:
-                        found.append((pc[1], pb))
-                        return 'seen'
+def _presence(t, m=None):
+    """`F.contains_key(k)` / `F.get(k).is_some()` (or the negated `is_none`) -> (container term, key term, positive?)"""
+    t = drop_lv(subst(t, m) if m else t)
+    neg = False
+    if is_call(t, ('is_none', 'is_some')) and t[2] and is_call(drop_lv(t[2][0]), ('get', 'get_key_value')):
+        neg = call_name(t) == 'is_none'
+        t = drop_lv(t[2][0])
+    elif not is_call(t, ('contains_key', 'contains')):
         return None
+    if len(t[2]) != 2:
+        return None
+    return t[2][0], t[2][1], not neg
+
+
+def _seen_atom(facts, found):
+    """atom: `every child hash of the node is in self.<F>` (through a helper or inline; as forall-present or as
+    not-exists-missing)."""
+    def atom(t):
+        if t[0] not in ('call', 'unop', 'binop'):
+            return None
+        q = quant(facts, t)
+        if q is None:
+            return None
+        src = q['src']
+        base = versionless(iter_source(src)[0])
+        if not (base[0] == 'field' and base[2] == 'children') or set(iter_adaptors(src)) & LOSSY_ADAPTORS:
+            return None
+        pb = param_path(base) or ('elem', ())
+        hit = []
+
+        def ba(x):
+            pr = _presence(x, q['m'])
+            if pr is None:
+                return None
+            cont, key, pos = pr
+            pc = param_path(cont)
+            if pc and pc[0] == 1 and versionless(key)[0] == 'item':
+                hit.append(pc[1])
+                return 'c' if pos else ('not', 'c')
+            return None
+        cret = interp(facts, q['cb']).ret
+        tv = {v: Evaluator(facts, bool_atom=ba, assumption={'c': v}).ev(cret) for v in (True, False)}
+        if not hit:
+            return None
+        if q['kind'] == 'forall' and tv == {True: True, False: False}:
+            positive = True
+        elif q['kind'] == 'exists' and tv == {True: False, False: True}:
+            positive = False
+        else:
+            return None
+        found.append((hit[0], pb, base))
+        return 'seen' if positive != q['neg'] else ('not', 'seen')
     return atom
 
 
@@ -201,7 +232,7 @@ def mk_route(ctx):
         res[s] = {k: (any(b in rc.reachable for b in v), rc.must_pass(v) if v else False) for k, v in sites.items()}
     det = {'all children in dag -> site: (may, must)': {str(k): v for k, v in res.items()}}
     errs = []
-    own = [f for f, pb in found if pb[0] == 2]
+    own = [f for f, pb, _b in found if pb[0] == 2]
     if not own:
         errs.append('no test that every child of the node is present')
     elif own[0] != ('dag',):
@@ -238,54 +269,127 @@ def mk_route(ctx):
     'C08': 'MerkleReg needs no delivery order at all',
 }, floor=1)
 def mk_reexam(ctx):
-    """After dag.insert every path re-examines the orphans: the ready ones are removed from orphans and re-applied."""
+    """After dag.insert every path re-examines the orphans: every orphan whose children are now all in dag is removed
+    from orphans and re-applied.  Decided on the loop form (the 's' view turns adaptor chains into loops): the node
+    handed to the recursive apply is traced back through the local collections it travels in
+    (apply <- nodes <- orphans.remove(hash) <- hashes <- key of every orphan whose children are all present)."""
+    from .loops import loops_of, fills_of, coll_local, loop_of_item, loop_of_block
     facts = ctx.facts
     body = ctx.method(MERKLE, 'CmRDT', 'apply')
     it = interp(facts, body)
-    rc = Reach(facts, body, Evaluator(facts))
+    rc0 = Reach(facts, body, Evaluator(facts))
     ins = [bb for bb, c in it.calls.items() if call_name(c.term) == 'insert' and param_path(c.args[0].val) == (1, ('dag',))]
     if not ins:
         ctx.shape('apply', body, 'dag.insert not found (see MK-ROUTE)')
         return
-    replay = []
-    for bb, c in it.calls.items():
-        info = cinfo(c.cid)
-        if info['uid'] == body.uid and len(c.args) == 2 and param_path(c.args[0].val) == (1, ()):
-            node = drop_lv(c.args[1].val)
-            from_orph = any(is_call(st, 'remove') and param_path(st[2][0]) == (1, ('orphans',)) for st in subterms(node)) or \
-                any(param_path(st) == (1, ('orphans',)) for st in subterms(versionless(node)))
-            # the value may flow through a local Vec: accept any derivation from orphans.remove pushed into a local collection
-            if not from_orph:
-                src = as_item(node)
-                if src is not None:
-                    base = drop_lv(iter_source(src)[0])
-                    for b2, c2 in it.calls.items():
-                        if call_name(c2.term) in ('push', 'extend', 'insert') and any(
-                                is_call(st, 'remove') and param_path(st[2][0]) == (1, ('orphans',)) for a in c2.args for st in subterms(drop_lv(a.val))):
-                            from_orph = True
-            if from_orph:
-                replay.append(bb)
-    filt = []
+    fills = fills_of(it)
     found = []
     seen = _seen_atom(facts, found)
-    for bb, c in it.calls.items():
-        if call_name(c.term) in ('filter', 'retain', 'filter_map') and c.args:
-            base = iter_source(c.args[0].val)[0]
-            if param_path(base) == (1, ('orphans',)):
-                for clo, m in closure_bindings(c.term):
-                    cb = facts.cb(clo[1])
-                    cr = subst(interp(facts, cb).ret, m)
-                    if any(seen(st) for st in subterms(drop_lv(cr)) if st[0] == 'call'):
-                        filt.append(bb)
+
+    def is_orphan_remove(t):
+        t = drop_lv(t)
+        return is_call(t, ('remove', 'remove_entry')) and len(t[2]) == 2 and param_path(versionless(t[2][0])) == (1, ('orphans',))
+
+    def atom(t):
+        if t[0] == 'discr' and is_orphan_remove(t[1]):
+            return 'some'
+        return seen(t)
+
+    def strip(v):
+        v = drop_lv(v)
+        while True:
+            if v[0] == 'field' and v[2] in ('Some.0', 'Ok.0') and not (v[1][0] == 'call' and call_name(v[1]) == 'next'):
+                v = drop_lv(v[1])
+            elif is_call(v, ('unwrap', 'expect', 'unwrap_or_default', 'clone', 'copied', 'cloned')) and v[2]:
+                v = drop_lv(v[2][0])
+            else:
+                return v
+
+    def trace(v, steps, depth=0):
+        """-> list of complete chains; a chain is a list of (loop, site) steps ending at the scan of self.orphans."""
+        if depth > 6:
+            return []
+        v = strip(v)
+        import os
+        if os.environ.get('DBG'): print('trace', depth, fmt(v, 5))
+        if is_orphan_remove(v):
+            return trace(v[2][1], steps, depth + 1)
+        # a part of the item of a loop
+        t, parts = v, []
+        while t[0] == 'field' and loop_of_item(it, t) is None:
+            parts.append(t[2])
+            t = drop_lv(t[1])
+        lp = loop_of_item(it, t)
+        if lp is None:
+            return []
+        base, kind, clo = iter_source(lp.src)
+        if param_path(base) == (1, ('orphans',)):
+            is_key = (kind == 'keys' and not parts) or (kind == 'items' and parts == ['0'])
+            if is_key and not clo and not (set(iter_adaptors(lp.src)) & LOSSY_ADAPTORS):
+                return [steps + [('scan', lp)]]
+            return []
+        name = coll_local(lp.raw_src)
+        if name is None:
+            return []
+        out = []
+        for f in fills:
+            if f.local == name and f.loop.head != lp.head:
+                for val in f.vals:
+                    out += trace(val, steps + [(f.loop, f.bb)], depth + 1)
+        return out
+
+    chains = []
+    for bb, c in sorted(it.calls.items()):
+        info = cinfo(c.cid)
+        if info['uid'] == body.base_uid and len(c.args) == 2 and param_path(versionless(c.args[0].val)) == (1, ()):
+            lp = loop_of_block(it, bb)
+            if lp is None:
+                continue
+            for ch in trace(c.args[1].val, [(lp, bb)]):
+                chains.append(ch)
+    if not chains:
+        ctx.check(False, 'apply', body, '', 'orphans are not re-examined: no recursive apply of a node taken out of orphans by a key that '
+                  'comes from scanning all of self.orphans')
+        return
     errs = []
-    if not filt:
-        errs.append('orphans are not re-examined (filtered by "all children now present") after a node becomes visible')
-    elif not all(rc.must_pass(filt, start=s) for i in ins for s in it.succs[i]):
-        errs.append('a path after dag.insert skips the re-examination of orphans')
-    if not replay:
-        errs.append('ready orphans are not removed from orphans and re-applied')
-    ctx.check(not errs, 'apply', body, 'after dag.insert: ready orphans removed and re-applied', errs[0] if errs else '',
-              line=block_line(it, filt[0]) if filt else None)
+    best = None
+    for ch in chains:
+        e = []
+        scan = ch[-1][1]
+        found.clear()
+        rc = Reach(facts, body, Evaluator(facts, bool_atom=atom, assumption={'seen': True, 'some': 1}))
+        loops_in_chain = [l for l, _ in ch[:-1]] + [scan]
+        for lp in loops_in_chain:
+            if lp.early_exits():
+                e.append('the loop at line %d can stop before every item was handled' % block_line(it, lp.head))
+            if not all(rc0.must_pass([lp.head], start=s_) for i_ in ins for s_ in it.succs[i_]):
+                e.append('a path after dag.insert skips the loop at line %d of the re-examination' % block_line(it, lp.head))
+        for lp, site in ch[:-1]:
+            if not lp.must(rc, [site]):
+                e.append('line %d: not every ready orphan reaches the next stage (the step at this line can be skipped for an orphan '
+                         'whose children are all present)' % block_line(it, site))
+        # the scan stage must be gated by presence of the orphan's children in dag
+        gate = [(f, b) for f, pb, b in found]
+        item_children = [b for f, b in gate if b[0] == 'field' and loop_of_item(it, strip_fields(b[1])) is not None
+                         and loop_of_item(it, strip_fields(b[1])).head == scan.head]
+        scan_site = ch[-2][1] if len(ch) >= 2 else None
+        rcF = Reach(facts, body, Evaluator(facts, bool_atom=atom, assumption={'seen': False, 'some': 1}))
+        if scan_site is not None and ch[-2][0].head == scan.head and scan.may(rcF, [scan_site]) and not item_children:
+            pass  # unconditional re-application of every orphan is wasteful but correct
+        if gate and any(f != ('dag',) for f, b in gate if b in item_children):
+            e.append('readiness of an orphan is tested against %s instead of dag' % '.'.join([f for f, b in gate if b in item_children][0]))
+        if best is None or len(e) < len(best):
+            best = e
+    errs = best
+    ctx.check(not errs, 'apply', body, 'after dag.insert: ready orphans removed and re-applied (%d provenance chain(s))' % len(chains),
+              errs[0] if errs else '', details={'chains': [[block_line(it, s_) if not isinstance(s_, str) and not hasattr(s_, 'head') else 'orphans' for _, s_ in ch] for ch in chains]})
+
+
+def strip_fields(t):
+    t = drop_lv(t)
+    while t[0] == 'field' and not (t[1][0] == 'call' and call_name(t[1]) == 'next' and t[2] == 'Some.0'):
+        t = drop_lv(t[1])
+    return t
 
 
 @rule('MK-MERGE', {
@@ -303,10 +407,12 @@ def mk_merge(ctx):
     for fld in ('dag', 'orphans'):
         good = []
         for bb, c in it.calls.items():
-            if is_call(c.term, 'apply', self_adt='MerkleReg') and len(c.args) == 2 and param_path(c.args[0].val) == (1, ()):
+            if is_call(c.term, 'apply', self_adt='MerkleReg') and len(c.args) == 2 and param_path(versionless(c.args[0].val)) == (1, ()):
                 n = versionless(c.args[1].val)
-                src = as_item(n[1]) if n[0] == 'field' else as_item(n)
-                if src is not None and whole_iteration_over(src, 2, (fld,)):
+                src = as_item(n)
+                if src is None and n[0] == 'field':
+                    src = as_item(n[1])
+                if src is not None and any(whole_iteration_over(part, 2, (fld,)) for part in chain_parts(src)):
                     good.append(bb)
         if not good:
             errs.append("the nodes of other.%s are not re-applied to self" % fld)
@@ -356,12 +462,18 @@ def mk_validate(ctx):
     fields = []
 
     def atom(t):
-        if is_call(t, ('contains_key', 'contains')) and len(t[2]) == 2:
+        neg = False
+        if is_call(t, ('is_none', 'is_some')) and t[2] and is_call(drop_lv(t[2][0]), ('get', 'get_key_value')):
+            neg = call_name(t) == 'is_none'
+            t = drop_lv(t[2][0])
+        elif not is_call(t, ('contains_key', 'contains')):
+            return None
+        if len(t[2]) == 2:
             pc = param_path(t[2][0])
             src = as_item(t[2][1])
             if pc and pc[0] == 1 and src is not None and whole_iteration_over(src, 2, ('children',)):
                 fields.append(pc[1])
-                return 'present'
+                return ('not', 'present') if neg else 'present'
         return None
     if not errs_s:
         ctx.fail('validate_op', body, 'never returns an error')
@@ -371,7 +483,8 @@ def mk_validate(ctx):
     for b2, c2 in sorted(it.calls.items()):
         if atom(c2.term):
             fr = iteration_frame(it, b2)
-            break
+            if fr:
+                break
     fields.clear()
     res = {}
     for p in (True, False):
@@ -454,7 +567,7 @@ def id_marker(ctx):
     if not one_ok:
         errs.append('with a single bound the new identifier is not [(position, marker)]')
     for bb, c in it.calls.items():
-        if cinfo(c.cid)['uid'] == body.uid and len(c.args) == 3 and versionless(c.args[2].val) != ('param', 3):
+        if cinfo(c.cid)['uid'] == body.base_uid and len(c.args) == 3 and versionless(c.args[2].val) != ('param', 3):
             errs.append('the swapped recursive call does not pass the marker on')
     ctx.check(not errs, 'between', body, 'every built identifier ends with the caller\'s marker', errs[0] if errs else '')
     vb = ctx.inherent(IDENT, 'value')
